@@ -158,11 +158,12 @@ def run(ctx):
     if n_rel == 0:
         ctx.unknown('T9.norm', nav.fq, 'no from_parts(...) construction found on the relative-reference paths', nav.loc)
     nz = prog.func(CLS + '.normalize')
-    w, paths = paths_of(prog, nz, recv=ci)
+    from rules.common import PrivInl
+    w, paths = paths_of(prog, nz, recv=ci, model=PrivInl(prog))
     for p in paths:
         if p.kind != 'return':
             continue
-        st = [o for o in p.ops if o.kind == 'attr_store' and txt(o.val) == 'self.path_parts']
+        st = [o for o in p.ops if o.kind == 'attr_store' and txt(o.val) == 'self.path_parts' and o.depth == 0]
         ok = bool(st) and txt(w.expand(st[0].info)) == 'resolve_path_parts(self.path_parts)'
         ctx.ob('T9.dots', nz.fq, 'normalize removes dot segments on every path (path_parts = resolve_path_parts(path_parts), no fast path)',
                ok, loc=nz.loc, path=p.describe() if not ok else None)
@@ -201,15 +202,17 @@ def run(ctx):
     mod = prog.module('urlutils')
     folder = Folder(mod)
     pops = []
-    for n in ast.walk(rp.node):
-        if isinstance(n, ast.If):
-            for st in n.body:
-                if isinstance(st, ast.Expr) and isinstance(st.value, ast.Call) and isinstance(st.value.func, ast.Attribute) \
-                        and st.value.func.attr == 'pop' and not st.value.args:
-                    pops.append((n, st.value))
+    from rules.common import with_helpers
+    for hf in with_helpers(prog, rp):
+        for n in ast.walk(hf.node):
+            if isinstance(n, ast.If):
+                for st in n.body:
+                    if isinstance(st, ast.Expr) and isinstance(st.value, ast.Call) and isinstance(st.value.func, ast.Attribute) \
+                            and st.value.func.attr == 'pop' and not st.value.args:
+                        pops.append((n, st.value, hf))
     if not pops:
         ctx.unknown('T7.unroot', rp.fq, 'no guarded <list>.pop() statement found', rp.loc)
-    for ifn, c in pops:
+    for ifn, c, hf in pops:
         var = txt(c.func.value)
         shapes = [[]]
         for n in (1, 2, 3):
@@ -218,7 +221,7 @@ def run(ctx):
         wrong = []
         # the whole guard of the pop: every enclosing condition that mentions the list, in evaluation order (short-circuit)
         dnf = [[(a, t) for a, t in conj if any(isinstance(x, ast.Name) and x.id == var for x in ast.walk(a))]
-               for conj in guard_dnf(rp, c)]
+               for conj in guard_dnf(hf, c)]
 
         def guard_value(env):
             for conj in dnf:
@@ -241,7 +244,7 @@ def run(ctx):
             if got != want:
                 wrong.append((sh, got, want))
         ctx.ob('T7.unroot', rp.fq, 'the guard of %s.pop() (`%s`) is true exactly when the list is non-empty and is not the bare root '
-               'marker [""] (checked on all %d shapes up to length 3)' % (var, txt(ifn.test), len(shapes)), not wrong, loc=loc(rp, ifn),
+               'marker [""] (checked on all %d shapes up to length 3)' % (var, txt(ifn.test), len(shapes)), not wrong, loc=loc(hf, ifn),
                detail='disagreements (shape, guard, expected): %s' % wrong[:4] if wrong else '')
     for r, n in (('T8.base', 1), ('T20.fresh', 2), ('T9.norm', 2), ('T9.inherit', 1), ('T9.dots', 1), ('T9.dotfree', 2), ('T7.unroot', 1)):
         ctx.need(r, n)
